@@ -76,16 +76,45 @@ theorem stack_preserves (s s' : Stack) (name : Str) (p : Path) (v : Val) (hv : s
       subst h; rfl
 
 /-- **precedence of the sources** (`main_with_args`, one language): all files
-    (command line first, then YAML `splicer:`) are read into one dictionary; a
-    `splicer_code` entry for the language then *replaces* that dictionary as a
-    whole (`dict.update` at language level), otherwise the files' dictionary is
-    used.  Declaration-level splicers are `force` (`create_force`). -/
-theorem collect_precedence (cmd yaml : List (List Str)) (code : Option Dict) (d : Dict)
+    (command line first, then YAML `splicer:`) are read into one dictionary;
+    the language's `splicer_code` entry is then merged into it entry by entry.
+    Declaration-level splicers are `force` (`create_force`). -/
+theorem collect_precedence (cmd yaml : List (List Str)) (d : Dict)
     (h : readAll [] (cmd ++ yaml) = .ok d) :
-    collectSplicers cmd yaml code = .ok (code.getD d)
-    ∧ collectSplicers cmd yaml none = .ok d
-    ∧ ∀ c, collectSplicers cmd yaml (some c) = .ok c := by
+    collectSplicers cmd yaml none = .ok d
+    ∧ ∀ c, collectSplicers cmd yaml (some c) = .ok (mergeCode d c) := by
   simp [collectSplicers, h]
+
+/-- **file blocks survive `splicer_code`.**  Whatever the files supplied under a
+    path `p` is still there after the merge unless `splicer_code` holds a body
+    at `p` or above it, or makes `p` itself a level.  (Before the `fix:` commit
+    every file-supplied block of the language was dropped.) -/
+theorem file_blocks_survive (d c : Dict) (p : Path) (h : ∀ e ∈ c, Spares p e) :
+    (mergeCode d c).lookup p = d.lookup p :=
+  mergeCode_spares c d p h
+
+/-- **`splicer_code` beats files, per block name.**  A body given in
+    `splicer_code` for `p` is what is found under `p` after the merge, whatever
+    the files said (for the entries of one YAML mapping the condition on the
+    later entries always holds: paths are distinct and nothing hangs below a
+    body). -/
+theorem code_beats_files (d c1 c2 : Dict) (p : Path) (b : List Str)
+    (h2 : ∀ e ∈ c2, Spares p e) :
+    (mergeCode d (c1 ++ (p, .leaf b) :: c2)).lookup p = some (.leaf b) := by
+  have : mergeCode d (c1 ++ (p, .leaf b) :: c2)
+      = mergeCode (setLeaf (mergeCode d c1) p b) c2 := by
+    simp [mergeCode, List.foldl_append, mergeEntry]
+  rw [this, mergeCode_spares c2 _ p h2]
+  exact lookup_setLeaf_self _ _ _
+
+example :
+    mergeCode [(["function".toList], .dict), (["function".toList, "foo".toList], .leaf ["file foo".toList]),
+               (["function".toList, "bar".toList], .leaf ["file bar".toList])]
+              [(["function".toList], .dict), (["function".toList, "bar".toList], .leaf ["code bar".toList]),
+               (["module_top".toList], .leaf ["code top".toList])]
+      = [(["function".toList], .dict), (["function".toList, "foo".toList], .leaf ["file foo".toList]),
+         (["function".toList, "bar".toList], .leaf ["code bar".toList]),
+         (["module_top".toList], .leaf ["code top".toList])] := by decide
 
 /-! ## (2) carriage through `write_lines` -/
 
@@ -190,7 +219,7 @@ theorem block_carriage (linelen : Nat) (spaces cont comment : Str) (i : Int) (s 
   have hall : ∀ l ∈ beginMarker comment s.names name :: body ++ [endMarker comment s.names name],
       Clean l = true := by
     intro l hl
-    simp only [List.cons_append, List.mem_cons, List.mem_append, List.mem_singleton, List.not_mem_nil,
+    simp only [List.cons_append, List.mem_cons, List.mem_append, List.not_mem_nil,
       or_false] at hl
     rcases hl with rfl | hl | rfl
     · exact hb
@@ -214,7 +243,7 @@ theorem block_carriage_force (linelen : Nat) (spaces cont comment : Str) (i : In
   have hall : ∀ l ∈ beginMarker comment s.names name :: body ++ [endMarker comment s.names name],
       Clean l = true := by
     intro l hl
-    simp only [List.cons_append, List.mem_cons, List.mem_append, List.mem_singleton, List.not_mem_nil,
+    simp only [List.cons_append, List.mem_cons, List.mem_append, List.not_mem_nil,
       or_false] at hl
     rcases hl with rfl | hl | rfl
     · exact hb
@@ -550,6 +579,215 @@ theorem roundtrip_block (spaces pre : Str) (i : Int) (tag : Str) (body rest : Li
     intro x hx
     exact (readback_line spaces i x hsp (hclean x hx) (hr x hx) (hnoend x hx)).1
   rw [this]
+
+/-! ### success for incomparable names; the whole-file round trip -/
+
+/-- The bodies stored in a dictionary, with their paths, in insertion order. -/
+def leaves (d : Dict) : List (Path × List Str) :=
+  d.filterMap (fun e => match e.2 with | .leaf b => some (e.1, b) | .dict => none)
+
+/-- "up to leading indentation and trailing blanks", for a list of named bodies -/
+def normalise (l : List (Path × List Str)) : List (Path × List Str) :=
+  l.map (fun e => (e.1, e.2.map core))
+
+/-- `q` is neither a prefix of nor prefixed by (nor equal to) any path in `S`. -/
+def Incomp (q : Path) (S : List Path) : Prop :=
+  ∀ s ∈ S, q.isPrefixOf s = false ∧ s.isPrefixOf q = false
+
+/-- Everything in `d` lies on the way to a path in `S`, the bodies exactly at paths in `S`. -/
+def Inv (d : Dict) (S : List Path) : Prop :=
+  ∀ p v, d.lookup p = some v → (∃ s ∈ S, p.isPrefixOf s = true) ∧ (∀ b, v = .leaf b → p ∈ S)
+
+theorem leaves_dicts (ex : Dict) (h : ∀ e ∈ ex, e.2 = .dict) : leaves ex = [] := by
+  unfold leaves
+  rw [List.filterMap_eq_nil_iff]
+  intro e he
+  simp [h e he]
+
+/-- **the insertion succeeds** for a dotted name that is prefix-incomparable
+    with (and distinct from) every name stored before: no crash, the earlier
+    bodies stay, the new body is appended. -/
+theorem insertBlock_ok (d : Dict) (S : List Path) (tag : Str) (save : List Str)
+    (hinv : Inv d S) (hinc : Incomp (splitOn '.' tag) S) :
+    ∃ d2, insertBlock d tag save = .ok d2 ∧ Inv d2 (splitOn '.' tag :: S) ∧
+      leaves d2 = leaves d ++ [(splitOn '.' tag, save)] := by
+  have hne := splitOn_ne_nil '.' tag
+  generalize hq : splitOn '.' tag = q at hne hinc ⊢
+  have hpath : q.dropLast ++ [q.getLast?.getD []] = q := by
+    rw [List.getLast?_eq_some_getLast hne]
+    simpa using List.dropLast_concat_getLast hne
+  have hnoleaf : ∀ r b, r.isPrefixOf q = true → d.lookup r ≠ some (.leaf b) := by
+    intro r b hr hl
+    have hin := (hinv r _ hl).2 b rfl
+    have := (hinc r hin).2
+    simp [hr] at this
+  have hdl : q.dropLast.isPrefixOf q = true := by
+    rw [List.isPrefixOf_iff_prefix]; exact List.dropLast_prefix q
+  obtain ⟨ex, hdesc, hex⟩ := descend_total q.dropLast d [] (Or.inl rfl) (by
+    intro i _ b hb
+    refine hnoleaf (q.dropLast.take i) b ?_ (by simpa using hb)
+    rw [List.isPrefixOf_iff_prefix]
+    exact (List.take_prefix i _).trans (List.dropLast_prefix q))
+  simp only [List.nil_append] at hdesc hex
+  have hexq : ∀ v, ex.lookup q ≠ some v := by
+    intro v hv
+    have hp := (hex _ (lookup_mem _ _ _ hv)).2
+    rw [List.isPrefixOf_iff_prefix] at hp
+    have hl := hp.length_le
+    have : q.length ≠ 0 := by simpa using hne
+    simp only [List.length_dropLast] at hl
+    omega
+  have hfree : (d ++ ex).lookup q = none := by
+    cases hl : (d ++ ex).lookup q with
+    | none => rfl
+    | some v =>
+      exfalso
+      rcases lookup_append_cases _ _ _ _ hl with h1 | ⟨_, h2⟩
+      · obtain ⟨s, hs, hps⟩ := (hinv q v h1).1
+        have := (hinc s hs).1
+        simp [hps] at this
+      · exact hexq v h2
+  have hobj : ∀ lines, objAt (d ++ ex) q.dropLast ≠ some (.leaf lines) := by
+    intro lines h
+    unfold objAt at h
+    split at h
+    · simp at h
+    · rcases lookup_append_cases _ _ _ _ h with h1 | ⟨_, h2⟩
+      · exact hnoleaf _ _ hdl h1
+      · have := (hex _ (lookup_mem _ _ _ h2)).1
+        simp at this
+  refine ⟨(d ++ ex) ++ [(q, .leaf save)], ?_, ?_, ?_⟩
+  · subst hq
+    cases ho : objAt (d ++ ex) (splitOn '.' tag).dropLast with
+    | none => simp [insertBlock, hdesc, closeBlock, ho, hpath, hfree, setLeaf]
+    | some v =>
+      cases v with
+      | leaf lines => exact absurd ho (hobj lines)
+      | dict => simp [insertBlock, hdesc, closeBlock, ho, hpath, hfree, setLeaf]
+  · intro p v h
+    rcases lookup_append_cases _ _ _ _ h with h1 | ⟨_, h2⟩
+    · rcases lookup_append_cases _ _ _ _ h1 with h3 | ⟨_, h4⟩
+      · obtain ⟨⟨s, hs, hps⟩, hb⟩ := hinv p v h3
+        exact ⟨⟨s, by simp [hs], hps⟩, fun b hv => by simp [hb b hv]⟩
+      · obtain ⟨hd, hp⟩ := hex _ (lookup_mem _ _ _ h4)
+        simp only at hd hp
+        refine ⟨⟨q, by simp, ?_⟩, fun b hv => by simp [hv] at hd⟩
+        rw [List.isPrefixOf_iff_prefix] at hp ⊢
+        exact hp.trans (List.dropLast_prefix q)
+    · simp only [List.lookup_cons] at h2
+      split at h2
+      · rename_i hk
+        simp only [beq_iff_eq] at hk
+        subst hk
+        refine ⟨⟨p, by simp, ?_⟩, fun _ _ => by simp⟩
+        rw [List.isPrefixOf_iff_prefix]
+        exact List.prefix_refl _
+      · simp at h2
+  · simp only [leaves, List.filterMap_append]
+    have := leaves_dicts ex (fun e he => (hex e he).1)
+    simp only [leaves] at this
+    simp [this]
+
+/-- A block of a generated file: text in front of it, its dotted name, the user's body. -/
+structure Blk where
+  junk : List Str
+  tag  : Str
+  body : List Str
+
+def Blk.path (b : Blk) : Path := splitOn '.' b.tag
+
+/-- The lines `get_splicers` reads for one emitted block, followed by `rest`. -/
+def blockLines (spaces pre : Str) (i : Int) (tag : Str) (body : List Str) (rest : List Str) : List Str :=
+  (pre ++ strBegin ++ (' ' :: tag ++ ['\n']))
+    :: body.map (fun l => emitLine spaces i l ++ ['\n'])
+    ++ (pre ++ strEnd ++ (' ' :: tag ++ ['\n'])) :: rest
+
+/-- A whole file: for every block arbitrary marker-free text, then the block; `tail` at the end. -/
+def fileLines (spaces pre : Str) (i : Int) : List Blk → List Str → List Str
+  | [], tail => tail
+  | b :: bs, tail => b.junk ++ blockLines spaces pre i b.tag b.body (fileLines spaces pre i bs tail)
+
+/-- text outside holds no begin marker; the name is non-empty without blanks; the
+    body lines are clean, right-stripped and hold no end marker -/
+def GoodBlk (b : Blk) : Prop :=
+  (∀ l ∈ b.junk, markerPos strBegin l = none) ∧ b.tag ≠ [] ∧ (∀ c ∈ b.tag, isPySpace c = false) ∧
+  (∀ l ∈ b.body, Clean l = true) ∧ (∀ l ∈ b.body, rstrip l = l) ∧ (∀ l ∈ b.body, findSub strEnd l 0 = none)
+
+def IncompBlk (a b : Blk) : Prop :=
+  a.path.isPrefixOf b.path = false ∧ b.path.isPrefixOf a.path = false
+
+theorem roundtrip_file_gen (spaces pre : Str) (i : Int) (tail : List Str)
+    (hsp : ∀ c ∈ spaces, c = ' ') (hpre : pre ≠ []) (hs : ∀ c ∈ pre, c ≠ 's')
+    (htail : ∀ l ∈ tail, markerPos strBegin l = none) :
+    ∀ (bs : List Blk) (d : Dict) (S : List Path), Inv d S →
+      (∀ b ∈ bs, GoodBlk b) → (∀ b ∈ bs, Incomp b.path S) → bs.Pairwise IncompBlk →
+      ∃ D, run d .look (fileLines spaces pre i bs tail) = .ok D ∧
+        leaves D = leaves d ++ bs.map (fun b => (b.path, b.body.map (emitLine spaces i))) := by
+  intro bs
+  induction bs with
+  | nil =>
+    intro d S _ _ _ _
+    refine ⟨d, ?_, by simp⟩
+    have := outside_ignored d tail [] htail
+    simpa [fileLines, run] using this
+  | cons b bs ih =>
+    intro d S hinv hgood hinc hpw
+    obtain ⟨g1, g2, g3, g4, g5, g6⟩ := hgood b (by simp)
+    obtain ⟨d2, hins, hinv2, hleaves⟩ :=
+      insertBlock_ok d S b.tag (b.body.map (emitLine spaces i)) hinv (hinc b (by simp))
+    rw [List.pairwise_cons] at hpw
+    have hinc2 : ∀ b' ∈ bs, Incomp b'.path (b.path :: S) := by
+      intro b' hb' s hs'
+      simp only [List.mem_cons] at hs'
+      rcases hs' with rfl | hs'
+      · have := hpw.1 b' hb'
+        exact ⟨this.2, this.1⟩
+      · exact hinc b' (by simp [hb']) s hs'
+    obtain ⟨D, hrun, hD⟩ := ih d2 (b.path :: S) hinv2 (fun x hx => hgood x (by simp [hx])) hinc2 hpw.2
+    refine ⟨D, ?_, ?_⟩
+    · simp only [fileLines]
+      rw [outside_ignored d b.junk _ g1]
+      unfold blockLines
+      rw [roundtrip_block spaces pre i b.tag b.body _ d hsp hpre hs g2 g3 g4 g5 g6, hins]
+      exact hrun
+    · rw [hD, hleaves]; simp [Blk.path]
+
+/-- **(3) whole-file round trip.**  For any file made of blocks with pairwise
+    prefix-incomparable (hence distinct) dotted names, each block emitted as
+    `block_carriage` describes (clean, right-stripped, end-marker-free bodies)
+    with arbitrary begin-marker-free text before, between and after the blocks:
+    `get_splicers` succeeds and the bodies it stores are, in order and under the
+    right names, exactly the emitted bodies -- which equal the user's bodies up
+    to leading indentation and trailing blanks. -/
+theorem roundtrip_file (spaces pre : Str) (i : Int) (bs : List Blk) (tail : List Str)
+    (hsp : ∀ c ∈ spaces, c = ' ') (hpre : pre ≠ []) (hs : ∀ c ∈ pre, c ≠ 's')
+    (htail : ∀ l ∈ tail, markerPos strBegin l = none)
+    (hgood : ∀ b ∈ bs, GoodBlk b) (hpw : bs.Pairwise IncompBlk) :
+    ∃ D, getSplicers (fileLines spaces pre i bs tail) [] = .ok D ∧
+      leaves D = bs.map (fun b => (b.path, b.body.map (emitLine spaces i))) ∧
+      normalise (leaves D) = normalise (bs.map (fun b => (b.path, b.body))) := by
+  have hinv0 : Inv [] [] := by intro p v h; simp at h
+  obtain ⟨D, hrun, hD⟩ := roundtrip_file_gen spaces pre i tail hsp hpre hs htail bs [] [] hinv0 hgood
+    (by intro b _ s hs'; simp at hs') hpw
+  refine ⟨D, hrun, by simpa [leaves] using hD, ?_⟩
+  have hD' : leaves D = bs.map (fun b => (b.path, b.body.map (emitLine spaces i))) := by
+    simpa [leaves] using hD
+  rw [hD']
+  simp only [normalise, List.map_map]
+  apply List.map_congr_left
+  intro b _
+  simp only [Function.comp, Prod.mk.injEq, true_and, List.map_map]
+  apply List.map_congr_left
+  intro l _
+  exact emitLine_core spaces i l (fun c hc => by rw [hsp c hc]; decide)
+
+example :
+    getSplicers (fileLines "    ".toList "    // ".toList 1
+      [⟨["junk\n".toList], "function.foo".toList, ["return 1;".toList, "".toList]⟩,
+       ⟨[], "C_definitions".toList, ["#define A 1".toList]⟩] ["tail\n".toList]) []
+    = .ok [(["function".toList], .dict),
+           (["function".toList, "foo".toList], .leaf ["    return 1;".toList, "".toList]),
+           (["C_definitions".toList], .leaf ["#define A 1".toList])] := by decide
 
 /-! ### reader defects, as modelled (replayed on the real code by the check) -/
 
